@@ -37,8 +37,8 @@ def tasks(tier):
     else:
         for gs in (8, 128, 2048):
             for ngte in (512, 4096):
-                out.append(("read", dict(kind="kdmv", grain_size=gs, ngte=ngte, n_grains=n)))
-                out.append(("read", dict(kind="kdmv_footer", grain_size=gs, ngte=ngte, flags=C | L, n_grains=n)))
+                out.append(("read", dict(kind="kdmv", grain_size=gs, ngte=ngte, n_grains=n if ngte == 512 else 1)))
+                out.append(("read", dict(kind="kdmv_footer", grain_size=gs, ngte=ngte, flags=C | L, n_grains=1)))
             out.append(("read", dict(kind="kdmv", grain_size=gs, ngte=512, flags=C, n_grains=n)))
             out.append(("read", dict(kind="cowd", grain_size=gs, n_grains=n)))
             out.append(("read", dict(kind="kdmv", grain_size=gs, ngte=512, n_grains=n, tail=True)))
